@@ -22,9 +22,15 @@ Proof. destruct o; cbn; auto. Qed.
 Lemma sat_ctx_of (Q : ctx -> Prop) o : sat Q Q o -> Q (ctx_of o).
 Proof. destruct o; cbn; auto. Qed.
 
+Lemma abort_stop c rs : exists c', abort c rs = Stop c'.
+Proof.
+  unfold abort, wjob, pop. destruct (cf c) as [|[|] ?]; cbn; try (eexists; reflexivity);
+  destruct (cstale c); cbn; eexists; reflexivity.
+Qed.
+
 (* symbolic execution of one (small) stage: split on every test, reduce the combinators *)
 Ltac stage_simpl :=
-  cbn [andthen halt abort updcond wjob with_job with_res with_eff sat cj cr cf ce fst snd].
+  cbn [andthen halt abort updcond wjob with_job with_res with_eff sat cj cr cf ce cstale cw fst snd].
 
 Ltac stage_split1 :=
   match goal with
